@@ -259,6 +259,9 @@ func c15Check(c *Case) []Violation {
 		return c15Frequency(c)
 	}
 	cfg := cfg15FromCase(c)
+	if c.Kind == "omission-twice" {
+		return c15CheckTwice(c, cfg)
+	}
 	_, vs := c15CheckCfg(c, cfg)
 	return vs
 }
@@ -370,6 +373,70 @@ func c15CheckCfg(c *Case, cfg c15Cfg) ([]string, []Violation) {
 		cur.Outcome(len(omitted) > 0, fmt.Sprint(cfg))
 	}
 	return omitted, vs
+}
+
+// c15CheckTwice: the omission listed twice in one request (the second one works on what the first one left). Each report
+// lists criteria that were still there when it was produced, the two lists are disjoint, and the decision equals the one
+// for the request with both lists deleted.
+func c15CheckTwice(c *Case, cfg c15Cfg) []Violation {
+	cids := critIDs(cfg.N)
+	k1 := c15K(cfg)
+	c2 := cfg
+	c2.N = cfg.N - k1
+	k2 := c15K(c2)
+	if k1 < 1 || k1+k2 >= cfg.N {
+		stat("twice_outside_domain")
+		return nil
+	}
+	req := c15Base(cfg, cids, nil, true)
+	bs := asL(req["biases"])
+	req["biases"] = L{bs[0], deepCopy(bs[0])}
+	out := c15Decide(req, cfg)
+	if !out.Accepted {
+		return []Violation{viol(c, "C15/rejected", "%s with the omission listed twice (k=%d then %d of %d) rejected: %s", cfg.Method, k1, k2, cfg.N, out.Err)}
+	}
+	resp, err := ParseResponse(out.Body)
+	if err != nil {
+		return []Violation{viol(c, "C15/unparsable", "%v", err)}
+	}
+	o1, ok1 := omittedIDs(resp, 0)
+	o2, ok2 := omittedIDs(resp, 1)
+	if !ok1 || !ok2 {
+		return []Violation{viol(c, "C15/no-report", "an omission listed twice reports %v", resp.Biases)}
+	}
+	if len(o1) != k1 || len(o2) != k2 {
+		return []Violation{viol(c, "C15/count", "omission listed twice on %d criteria: omitted %v then %v, expected %d then %d", cfg.N, o1, o2, k1, k2)}
+	}
+	om := map[string]bool{}
+	for _, o := range append(append([]string{}, o1...), o2...) {
+		if !contains(cids, o) {
+			return []Violation{viol(c, "C15/undeclared-omitted", "omitted criterion %q is not among the declared criteria %v", o, cids)}
+		}
+		if om[o] {
+			return []Violation{viol(c, "C15/omitted-twice", "criterion %q is reported as omitted by both applications: %v then %v", o, o1, o2)}
+		}
+		om[o] = true
+	}
+	distinctW := true
+	for i := range cfg.W[:cfg.N] {
+		for j := i + 1; j < cfg.N; j++ {
+			if cfg.W[i] == cfg.W[j] {
+				distinctW = false
+			}
+		}
+	}
+	if cfg.Method == "aspectEliminationHeuristic" && !distinctW {
+		return nil
+	}
+	out2 := Decide(J(c15Base(cfg, cids, om, false)), nil)
+	if !out2.Accepted {
+		return []Violation{viol(c, "C15/reduced-rejected", "the request with criteria %v and %v deleted is rejected: %s", o1, o2, out2.Err)}
+	}
+	r2, _ := ParseResponse(out2.Body)
+	if !bytes.Equal(J(resp.Result), J(r2.Result)) {
+		return []Violation{viol(c, "C15/reduced-request", "result after omitting %v and then %v differs from the result of the request with those criteria deleted: %s vs %s", o1, o2, J(resp.Result), J(r2.Result))}
+	}
+	return nil
 }
 
 // c15Sequence returns the full ordering observed with k = n-1 (omitted list + the kept criterion).
@@ -489,6 +556,21 @@ func c15Run(s *Shard) {
 						if !sampled && n == 3 && cfg.Order == "strongest" {
 							s.Sample(M{"request": c15Base(cfg, critIDs(n), nil, true)})
 							sampled = true
+						}
+					}
+					// the omission listed twice, every ordering, real seeds and a scripted generator
+					if n >= 3 {
+						for _, ord := range orderings {
+							for _, sd := range seeds[1:4] {
+								tc := c15Cfg{Method: method, N: n, Vals: vals, W: w, Ratio: 0.34, Min: 1, Max: -1, Order: ord, Seed: sd.seed, Script: sd.script}
+								if n == 4 {
+									tc.Ratio, tc.Min = 0.5, -1
+								}
+								c := &Case{Prop: "C15", Kind: "omission-twice", Params: M{"cfg": tc}}
+								s.Evals++
+								s.Begin(c)
+								s.Report(c15CheckTwice(c, tc))
+							}
 						}
 					}
 					// strongest is the exact reverse of weakest; random orderings are permutations (k = n-1)
